@@ -142,8 +142,12 @@ def run_cfg(job, cfg):
         # (so the optimum is the one of the plain potentials), but every message across that attribute has slices 1500 nats apart
         lst = S.compensate(S.ATTRS[:k], SIZES[:k], [(r, np.asarray(pots[r].values, dtype=float)) for r in regs])
         pots = CliqueVector({r: Factor(dom.project(r), a) for r, a in lst})
+    snap_ = {r: np.array(pots[r].values, copy=True) for r in regs}
     mu = rg.belief_propagation(pots)
     fails = []
+    if any(not np.array_equal(snap_[r], np.asarray(pots[r].values)) for r in regs):
+        fails.append(('potentials-mutated', 'the oracle overwrote the potentials it was given'))
+        pots = CliqueVector({r: Factor(dom.project(r), snap_[r]) for r in regs})
     for r in regs:
         v = np.asarray(mu[r].values, dtype=float)
         if tuple(mu[r].domain.attrs) != tuple(r) or not np.all(np.isfinite(v)) or v.min() < 0 or abs(v.sum() - T) > 1e-9 * T:
